@@ -3,11 +3,14 @@
 # failing case as corpus/<ID>/<name>.json (the seconds-long replay tier).  Run on the unchanged tree only.
 cd "$(dirname "$(dirname "$(readlink -f "$0")")")"
 declare -A REV=( [D2]=C08 [D3]=C08 [D4]=C08 [D5]=C03 [D6]=C03 [D8]=C10 [D9]=C16 [D10]=C07 [D11]=C07 [D12a]=C18 [D12b]=C18 [D12c]=C18 [D13]=C12 )
+# ONLY=<glob> restricts the run to matching names (seed directories like 'C07-J', reverted fixes like 'D13'), e.g. ONLY='*-[IJ]'
 for d in "${!REV[@]}"; do
+  case "$d" in ${ONLY:-*}) ;; *) continue;; esac
   ID=${REV[$d]}
   KEEP_REPLAY=corpus/$ID KEEP_NAME=revert_$d tools/mutant_run.sh tools/mutants/revert_$d.diff $ID quick 1 | tail -1
 done
 for s in seeded/*/; do
   n=$(basename $s); ID=${n%%-*}
+  case "$n" in ${ONLY:-*}) ;; *) continue;; esac
   KEEP_REPLAY=corpus/$ID KEEP_NAME=seed_$n tools/mutant_run.sh $s/patch.diff $ID quick ${SEED:-1} | tail -1
 done
